@@ -68,6 +68,13 @@ func Total(args []string) {
 			ms = append(ms, frontarea.Model{Text: text, Tag: "parameters", Query: q})
 		}
 	}
+	// string literals with escapes, every one different (decoded per call: the place for pooled or cached scratch space)
+	for i, esc := range []string{`a\\'b`, `c\\\\d`, `e\\nf`, `g\\th`, `\\u0041i`, `j\\"k`, `l\\rm`, `\\'`, `\\\\`, `n\\\\\\'o`, `p\\bq`, `r\\fs`, `\\u00e9t`, `u\\'\\'v`, `w\\\\n`, `x\\ty\\nz`} {
+		text := fmt.Sprintf("match (n) where n.name = '%s' and n.k%d = '%s%d' return n", esc, i, esc, i)
+		if q, err := frontend.ParseCypher(frontend.NewContext(), text); err == nil {
+			ms = append(ms, frontarea.Model{Text: text, Tag: "escaped-literal", Query: q})
+		}
+	}
 	// every read query of the corpus once more as a two-part query: its pattern variables handed through a WITH to
 	// the original RETURN, so that whatever the optimiser rewrites sits in a non-final part
 	lastReturn := regexp.MustCompile(`(?i)\breturn\b`)
@@ -192,6 +199,42 @@ models:
 			w.Emit(map[string]any{"e": "total", "hid": hid, "text": m.Text, "class": m.Tag, "params": variant, "ok": first.ok, "err": clip(first.err), "panic": panicked, "panicmsg": clip(panicmsg),
 				"deterministic": deterministic, "concurrent_same": concurrent, "model_unchanged": walkarea.DumpOf(m.Query) == modelBefore,
 				"params_unchanged": walkarea.DumpOf(params) == paramsBefore, "ms": worst, "budget_ms": 5000, "nparams": len(syms.params)})
+			hid++
+		}
+	}
+	// different queries at the same time: groups of models, one goroutine each, three rounds; every translation must equal
+	// what the same model gave when it was translated alone (shared pools and caches are the suspects here)
+	var solo []outcome
+	var soloModels []frontarea.Model
+	for _, m := range ms {
+		if len(symbolsOf(m.Query).params) > 0 {
+			continue
+		}
+		if o := translateOnce(m.Query, mapper, nil); !o.abandoned && o.ok {
+			solo = append(solo, o)
+			soloModels = append(soloModels, m)
+		}
+	}
+	for start := 0; start < len(soloModels); start += *workers {
+		end := min(start+*workers, len(soloModels))
+		sameAll := make([]bool, end-start)
+		var wg sync.WaitGroup
+		for g := start; g < end; g++ {
+			wg.Add(1)
+			go func(g int) {
+				defer wg.Done()
+				same := true
+				for round := 0; round < 3; round++ {
+					o := translateOnce(soloModels[g].Query, mapper, nil)
+					same = same && o.ok == solo[g].ok && o.sql == solo[g].sql && sameParams(o.params, solo[g].params)
+				}
+				sameAll[g-start] = same
+			}(g)
+		}
+		wg.Wait()
+		for g := start; g < end; g++ {
+			w.Emit(map[string]any{"e": "total", "hid": hid, "text": soloModels[g].Text, "class": "mixed-concurrency", "params": "plain", "ok": true, "err": "", "panic": false, "panicmsg": "",
+				"deterministic": true, "concurrent_same": sameAll[g-start], "model_unchanged": true, "params_unchanged": true, "ms": 0, "budget_ms": 5000, "nparams": 0})
 			hid++
 		}
 	}
